@@ -52,8 +52,8 @@ func (p *InsertionParameters) ComputeInputHashInsertion() error {
 		return err
 	}
 	data = append(data, buf.Bytes()...)
-	data = append(data, p.PreRoot.Bytes()...)
-	data = append(data, p.PostRoot.Bytes()...)
+	data = append(data, padTo32Bytes(p.PreRoot.Bytes())...)
+	data = append(data, padTo32Bytes(p.PostRoot.Bytes())...)
 	for _, v := range p.IdComms {
 		idBytes := v.Bytes()
 		// extend to 32 bytes if necessary, maintaining big-endian ordering
@@ -65,6 +65,15 @@ func (p *InsertionParameters) ComputeInputHashInsertion() error {
 	hashBytes := keccak256.Hash(data)
 	p.InputHash.SetBytes(hashBytes)
 	return nil
+}
+
+// padTo32Bytes left-pads a big-endian value to the fixed 32-byte width the
+// circuit and the on-chain verifier hash (uint256).
+func padTo32Bytes(b []byte) []byte {
+	if len(b) < 32 {
+		b = append(make([]byte, 32-len(b)), b...)
+	}
+	return b
 }
 
 func BuildR1CSInsertion(treeDepth uint32, batchSize uint32) (constraint.ConstraintSystem, error) {
